@@ -129,7 +129,9 @@ def line_jobs(tier):
         with open(os.path.join(vlib.SPEC, cfg), "w") as f:
             f.write("SPECIFICATION Spec\nCONSTANTS Fam = \"%s\" Els = {%s} Mode = \"%s\"\nINVARIANTS %s\nCHECK_DEADLOCK FALSE\n"
                     % (fam, ", ".join('"%s"' % e for e in els), tier, LINE_INVARIANTS))
-        jobs.append((cfg, fam, els, grp))
+        jobs.append(("LineElement", cfg, fam, els, grp))
+    # 1-D cells embedded in R^2 / R^3 (transformation only)
+    jobs.append(("LineEmbed", "LineEmbed.cfg", "both", ["trafo-embedded"], 1))
     return jobs
 
 
@@ -138,21 +140,21 @@ def run_line(chk, bins, futs):
     predicted observations), replay the cases into the real trafo / spaces / interpolator / inverse mapping"""
     ncase = ncmp = ndesc = 0
     fams = {}
-    for fu, (cfg, fam, els, grp) in futs:
+    for fu, (mod, cfg, fam, els, grp) in futs:
         rr = fu.result()
-        chk.add_tlc(rr, "LineElement %s %s" % (fam, "+".join(els)))
+        chk.add_tlc(rr, "%s %s %s" % (mod, fam, "+".join(els)))
         if rr.violation:
-            chk.model_violation(rr, "LineElement (%s, %s): an invariant of the 1-D specification (Dual / Continuous / OneIndex / ...) fails" % (fam, "+".join(els)))
+            chk.model_violation(rr, "%s (%s, %s): an invariant of the 1-D specification (Dual / Continuous / OneIndex / ...) fails" % (mod, fam, "+".join(els)))
             continue
         cases = rr.printed
         if not cases:
-            raise vlib.MachineryError("LineElement generated no cases (%s %s)" % (fam, els))
+            raise vlib.MachineryError("%s generated no cases (%s %s)" % (mod, fam, els))
         res = vlib.run_cases(bins[4 + grp], cases, tmo=120, shards=6)
         vlib.judge_results(chk, cases, res,
                            lambda c, r: {"kind": "line", "fam": c["fam"], "dim": 1, "el": c["el"], "descending": bool(c["desc"]),
                                          "pred": r.get("pred", r.get("outcome", "mismatch"))},
                            keyf=lambda c: "line %s %s %s %s" % (c["fam"], c["el"], json.dumps(c["X"]), json.dumps(c["cells"])),
-                           harness="c15_line_g%d" % grp, nontrivial=lambda c: c["nc"] > 1 or bool(c["desc"]))
+                           harness="c15_line_g%d" % grp, nontrivial=lambda c: c.get("nc", 2) > 1 or bool(c["desc"]))
         ncase += len(cases)
         ncmp += sum(r.get("ncmp", 0) for r in res)
         ndesc += sum(1 for c in cases if c["desc"])
@@ -186,8 +188,8 @@ def run(chk):
 def _run(chk, tier, bins, gdir):
     # ---- dimension 1: the TLC runs are started now and collected after the reference-cell part ----
     ljobs = line_jobs(tier)
-    lex = cf.ThreadPoolExecutor(max_workers=4)
-    lfuts = [(lex.submit(vlib.tlc, "LineElement", j[0], timeout=2400, xmx="3g"), j) for j in ljobs]
+    lex = cf.ThreadPoolExecutor(max_workers=3)
+    lfuts = [(lex.submit(vlib.tlc, j[0], j[1], timeout=2400, xmx="1500m"), j) for j in ljobs]
     try:
         _run2(chk, tier, bins, gdir, lfuts)
     finally:
@@ -312,7 +314,9 @@ def _run2(chk, tier, bins, gdir, lfuts):
                 "Dual (physical functionals on physical basis functions), FunctionalWellDefined, OneIndexPerFunctional, Continuous, GradContinuous (C1 families) "
                 "on the specification in exact integers and emits the predicted dof mapping / assignment, signed jac_mat, jac_det = |J|, jac_inv, cell length, "
                 "value / gradient / Hessian of every basis function at lattice points, N_i(x^k) for every functional, x^k and its derivatives, and the "
-                "(cell, xi) hits of Trafo::InverseMapping; harness/c15_line.cpp compares with == (1e-13 for the thirds of Lagrange-3 / the cubature of Bernstein-2).  "
+                "(cell, xi) hits of Trafo::InverseMapping; harness/c15_line.cpp compares with == (1e-13 for the thirds of Lagrange-3 / the cubature of Bernstein-2), "
+                "and checks Trafo::Isoparam::Mapping<Mesh, 1|2|3> without charts against the same affine predictions; spec/LineEmbed.tla: two-cell chains embedded in "
+                "R^2 / R^3 with Pythagorean directions, each cell stored forwards or backwards: img_point, jac_mat, jac_det = |J|, volume() == the euclidean length.  "
                 "A case = (mesh, route, family); non-trivial = has an interior facet or is a single cell (1-D: more than one cell or a descending cell); quick tier sub-samples "
                 "the 3D gluings (stride 3-16)")
     for d in full[:: max(1, len(full) // 3)][:3]:
@@ -325,9 +329,9 @@ def _run2(chk, tier, bins, gdir, lfuts):
                        "DerivConsistent is decided on the reproduced polynomials (exact derivatives of the monomials), not on arbitrary members of the local space",
                        "non-dyadic families / meshes are judged through stated floating-point tolerances (projection principle); the isoparametric transformation only for quadrilaterals: degree 2 with a circle chart exactly, degrees 1-3 without "
                        "charts against the bilinear map (not: degree 3 with charts, simplices, hexahedra); dimensions 2 and 3",
-                       "dimension 1: interval lengths are powers of two (the exact domain: every Jacobian, inverse and chain-rule factor is dyadic), meshes embedded in R^1 "
-                       "only (ConformalMesh<Shape, 1>); Bernstein-2's cell functional is specified on the local space P2 only (b_mid = 2u(m) - (u(a)+u(b))/2), "
-                       "Bogner-Fox-Schmit has no NodeFunctional (Dual through the exact basis tables); the iso-parametric Hypercube<1> evaluator is not covered"]
+                       "dimension 1: interval lengths are powers of two (the exact domain: every Jacobian, inverse and chain-rule factor is dyadic); spaces only on meshes "
+                       "embedded in R^1 (ConformalMesh<Shape, 1>), embedded cells (R^2, R^3): transformation only; Bernstein-2's cell functional is specified on the local space P2 only (b_mid = 2u(m) - (u(a)+u(b))/2), "
+                       "Bogner-Fox-Schmit has no NodeFunctional (Dual through the exact basis tables); the iso-parametric Hypercube<1> evaluator only without charts"]
 
 
 def replay(obj):
